@@ -13,7 +13,10 @@ DevDecode(e) == IF Dev_NarrowingWraps(e) THEN "Dev_NarrowingWraps"
                 ELSE "NONE"
 
 \* C06 speaks about accepted payloads: a panic is C05's business
-Fidelity(e) == e.r.out = "panic" \/ DecodeOK(e.kind, e.null, e.lit, e.r)
+\* ... and re-marshaling the accepted resource gives the attribute back as the same JSON value (a
+\* byte string accepted in a non-canonical spelling, or given as an array, comes back canonical)
+RemarshalOK(e) == (e.r.out = "accept" /\ e.lit.cls \notin {"b64nc", "arr"}) => e.r.remarshal_ok
+Fidelity(e) == e.r.out = "panic" \/ (DecodeOK(e.kind, e.null, e.lit, e.r) /\ RemarshalOK(e))
 
 Init == l = 1
 Next == /\ l <= Len(Trace)
